@@ -26,6 +26,7 @@ class Ctx:
         self.relativize_int = relativize_int
         self.finite_domain = None   # list of G terms: quantifiers over G expand over it (finite-structure checks)
         self.pred_override = {}     # (name, arity, world) -> callable, e.g. an extent parametrised by Booleans
+        self.placeholders = {}      # symbol name -> sort ('i'|'g'|'s'): user-guide placeholders inside programs
         self.twin = None   # deliberately wrong reference variants, used only by vacuity twins
         self.G = None
         self._mk_sorts()
@@ -495,6 +496,14 @@ class Ctx:
         tag = t[0]
         if tag == 'pnum':
             return [], z3.BoolVal(True), self.numeral(t[1])
+        if tag == 'psym' and str(t[1]) in self.placeholders:
+            srt = self.placeholders[str(t[1])]
+            if srt == 'i':
+                return [], z3.BoolVal(True), self.const('fc', t[1], 'i')
+            if srt == 'g':
+                c = self.const('fc', t[1], 'g')
+                return [], G.is_int(c), G.ival(c)
+            return [], z3.BoolVal(False), z3.IntVal(0)
         if tag in ('pinf', 'psup', 'psym'):
             return [], z3.BoolVal(False), z3.IntVal(0)
         if tag == 'var':
@@ -538,6 +547,10 @@ class Ctx:
             return [], z3.BoolVal(True), G.sup
         if tag == 'pnum':
             return [], z3.BoolVal(True), G.int(self.numeral(t[1]))
+        if tag == 'psym' and str(t[1]) in self.placeholders:
+            srt = self.placeholders[str(t[1])]
+            c = self.const('fc', t[1], srt)
+            return [], z3.BoolVal(True), {'i': G.int, 's': G.sym, 'g': lambda x: x}[srt](c)
         if tag == 'psym':
             return [], z3.BoolVal(True), G.sym(self.symbol(t[1]))
         if tag == 'var':
@@ -563,9 +576,9 @@ class Ctx:
             if sign == 'pos':
                 core = self.pred(name, len(args), w)(*vals)
             elif sign == 'not':
-                core = z3.Not(self.pred(name, len(args), w if self.twin == 'not-here' else 't')(*vals))
+                core = z3.Not(self.pred(name, len(args), w if (self.twin == 'not-here' or w not in ('h', 't')) else 't')(*vals))
             else:
-                core = self.pred(name, len(args), 't')(*vals)
+                core = self.pred(name, len(args), 't' if w in ('h', 't') else w)(*vals)
             body = z3.And(*(conds + [core])) if conds else core
             return z3.Exists(bound, body) if bound else body
         if tag == 'cmp':
@@ -589,7 +602,7 @@ class Ctx:
         if tag == 'basic':
             concl = pw
         else:
-            concl = z3.Or(pw, z3.Not(self.pred(name, len(args), 't')(*vals)))
+            concl = z3.Or(pw, z3.Not(self.pred(name, len(args), 't' if w in ('h', 't') else w)(*vals)))
         if not args:
             return concl
         body = z3.Implies(z3.And(*conds), concl)
@@ -631,7 +644,7 @@ class Ctx:
             hd = self.head(rule[1], world, env)
             return z3.Implies(z3.And(*body), hd) if body else hd
 
-        inner = at('t') if w == 't' else z3.And(at('h'), at('t'))
+        inner = z3.And(at('h'), at('t')) if w == 'h' else at(w)
         if xs and self.finite_domain is not None:
             return self.expand('forall', xs, inner)
         return z3.ForAll(xs, inner) if xs else inner
